@@ -31,6 +31,8 @@ def leaves():
     out.append(T("vharness::vt::Pz", "U(vharness.vt;Pz;)", 0))
     out.append(T("vharness::vt::inner::Deep", "U(vharness.vt.inner;Deep;)", 0))
     out.append(T("vharness::string::String", "U(vharness.string;String;)", 0))
+    out.append(T("vharness::deep::alloc::string::String", "U(vharness.deep.alloc.string;String;)", 0))
+    out.append(T("vharness::deep::std::string::String", "U(vharness.deep.std.string;String;)", 0))
     return out
 
 
@@ -38,8 +40,20 @@ def grow(rng, pool, depth):
     a = rng.choice(pool)
     b = rng.choice(pool)
     c = rng.choice(pool)
-    k = rng.randrange(14)
+    k = rng.randrange(15)
     d = depth
+    if k == 14:
+        # user types in modules called alloc / core / std: longer paths with the same ending as the shortened std paths
+        m = rng.randrange(5)
+        if m == 0:
+            return T("vharness::deep::alloc::vec::Vec<%s>" % a.rust, "U(vharness.deep.alloc.vec;Vec;%s)" % a.desc, d)
+        if m == 1:
+            return T("vharness::deep::alloc::boxed::Box<%s>" % a.rust, "U(vharness.deep.alloc.boxed;Box;%s)" % a.desc, d)
+        if m == 2:
+            return T("vharness::deep::core::option::Option<%s>" % a.rust, "U(vharness.deep.core.option;Option;%s)" % a.desc, d)
+        if m == 3:
+            return T("vharness::deep::std::vec::Vec<%s>" % a.rust, "U(vharness.deep.std.vec;Vec;%s)" % a.desc, d)
+        return T("vharness::deep::core::result::Result<%s, %s>" % (a.rust, b.rust), "U(vharness.deep.core.result;Result;%s,%s)" % (a.desc, b.desc), d)
     if k == 0:
         return T("Box<%s>" % a.rust, "B(%s)" % a.desc, d)
     if k == 1:
@@ -191,6 +205,16 @@ def write_crate(crate, types, rng):
     for k, t in enumerate(types):
         sp = [t.rust, spaced(rng, t.rust), strip(t.rust).replace(",", ", ")]
         body.append("    row::<%s>(%d, &r, &r2, &rf, &[%s]);" % (t.rust, k, ", ".join(json.dumps(s) for s in sp)))
+    # a name that was looked up BEFORE its type was registered (a miss), then registered, then looked up again with
+    # the very same spelling: the table must answer what it now holds; also on a table loaded from JSON, then extended
+    body.append("    { let mut late = StaticTypeResolver::new(); let mut late2: StaticTypeResolver = StaticTypeResolver::from(serde_json::from_str::<BTreeMap<String, DynamicTypeInfo>>(\"{}\").unwrap());")
+    nl = 0
+    for k, t in enumerate(types):
+        if t.sized and (k % 37 == 5 or k < 6):
+            nl += 1
+            sp = json.dumps(t.rust)
+            body.append("      for tab in [&mut late, &mut late2] { let miss = look(tab, %s); if miss.is_some() { println!(\"LATE %d|answered before it was registered\"); } tab.add_type::<%s>(); let want = Some((ws(&truc_type_name::<%s>()), std::mem::size_of::<%s>(), std::mem::align_of::<%s>())); let got = look(tab, %s); if got != want { println!(\"LATE %d|looked up before it was registered (a miss), then registered: the same lookup answers {:?} instead of {:?}\", got, want); } }" % (sp, k, t.rust, t.rust, t.rust, t.rust, sp, k))
+    body.append("    }")
     # the standard table agrees with the host for the types it registers
     body.append("    let mut std_table = StaticTypeResolver::new(); std_table.add_all_types();")
     body.append("    let mut nstd = 0usize;")
@@ -281,6 +305,10 @@ def run_e6(tier, seed):
             res["oracle"].append({"property": "C17", "type": types[k].rust, "what": "type `%s` has the same recorded name as another type of the list" % types[k].rust})
         elif line.startswith("STD "):
             res["oracle"].append({"property": "C18", "type": line[4:].split("|")[0], "what": "the standard type table disagrees with the host: " + line[4:]})
+        elif line.startswith("LATE "):
+            k, what = line[5:].split("|", 1)
+            if sum(1 for x in res["oracle"] if x["property"] == "C18") < 25:
+                res["oracle"].append({"property": "C18", "type": types[int(k)].rust, "what": "type `%s`: %s" % (types[int(k)].rust, what)})
         elif line.startswith("JSONFAIL") or line.startswith("JSONDIFF"):
             res["oracle"].append({"property": "C18", "type": "-", "what": "the type table does not survive a JSON round trip: " + line})
         elif line.startswith("REPEAT "):
